@@ -1,5 +1,6 @@
 import XdistProofs.Sys.EachOnce
 import XdistProofs.Sched.ScopeUnits
+import XdistProofs.Sched.ScopeDisj
 /-!
   C06, whole system: under `--dist loadscope`, `loadfile` and `loadgroup`, in **every execution of the composed system** every work
   unit — queued, or assigned to a worker, whole or the re-queued remainder of a dead worker's — holds only tests of the group key it
@@ -9,9 +10,9 @@ import XdistProofs.Sched.ScopeUnits
 namespace Xdist.Sys
 open Xdist Xdist.Ctl
 
-/-- the scheduler is (and stays) a `LoadScopeScheduling` of mode `m`, and its units are homogeneous -/
+/-- the scheduler is (and stays) a `LoadScopeScheduling` of mode `m`, its units are homogeneous and a key is in one place -/
 def ScopeP (m : String) : Sched.Any → Env → Prop
-  | .scope m' s, _ => m' = m ∧ LoadScope.Hom (Sched.splitOf m) s
+  | .scope m' s, _ => m' = m ∧ LoadScope.Hom (Sched.splitOf m) s ∧ LoadScope.DI s
   | _, _ => False
 
 theorem iface_scopeP (specs : AList Nat Nat) (m : String) : DiscS (Sched.iface specs) (ScopeP m) where
@@ -25,7 +26,7 @@ theorem iface_scopeP (specs : AList Nat Nat) (m : String) : DiscS (Sched.iface s
       simp only [Prod.mk.injEq] at hq2
       obtain ⟨rfl, rfl, _⟩ := hq2
       obtain ⟨q1, q2, q3⟩ := q
-      exact ⟨rfl, LoadScope.step_hom _ hq hh⟩
+      exact ⟨rfl, LoadScope.step_hom _ hq hh.1, LoadScope.step_di _ hq hh.2⟩
     | nosched => exact hp.elim
     | load s0 => exact hp.elim
     | ws s0 => exact hp.elim
@@ -50,7 +51,7 @@ theorem C06_sys_units_hold_one_group (specs : AList Nat Nat) (m : String) (numno
       (∀ a ∈ s.assigned, ∀ p ∈ a.2, ∀ q ∈ p.2, Sched.splitOf m q.1 = p.1) := by
   have h0 : ScopeP m (init (Sched.iface specs) (.scope m (LoadScope.init numnodes)) numnodes maxfail mr idsOf).ctl.sched
       (init (Sched.iface specs) (.scope m (LoadScope.init numnodes)) numnodes maxfail mr idsOf).ctl.env := by
-    refine ⟨rfl, ?_, ?_⟩
+    refine ⟨rfl, ⟨?_, ?_⟩, LoadScope.init_di numnodes⟩
     · intro p hp; simp [LoadScope.init] at hp
     · intro a ha; simp [LoadScope.init] at ha
   have hp := run_discS (Sched.iface specs) (iface_scopeP specs m) idsOf steps h0 h
@@ -58,7 +59,35 @@ theorem C06_sys_units_hold_one_group (specs : AList Nat Nat) (m : String) (numno
   | scope m' s =>
     rw [hsc] at hp
     obtain ⟨rfl, hh⟩ := hp
-    exact ⟨s, rfl, hh.1, hh.2⟩
+    exact ⟨s, rfl, hh.1.1, hh.1.2⟩
+  | nosched => rw [hsc] at hp; exact hp.elim
+  | load s => rw [hsc] at hp; exact hp.elim
+  | ws s => rw [hsc] at hp; exact hp.elim
+  | each s => rw [hsc] at hp; exact hp.elim
+
+/-- **A group is in one place at a time, whole system** (C06; `m` is `loadscope`, `loadfile` or `loadgroup`).  After any execution of
+    the composed system — any schedule of the threads, crashes whose left-over is re-queued, replacements, stop requests —, for every
+    group key: if a unit of that key is in the queue it is in no worker's assigned work; and if it is in the assigned work of two
+    workers, they are one and the same worker.  With `C06_sys_units_hold_one_group` (a unit holds only tests of its key) and
+    `C06_same_group_same_unit` (all tests of a key are in its unit): the tests of a group are never spread over two workers. -/
+theorem C06_sys_group_in_one_place (specs : AList Nat Nat) (m : String) (numnodes maxfail : Nat) (mr : Option Int)
+    (idsOf : Nat → List String) (steps : List Step) {st : State Sched.Any String}
+    (h : run (Sched.iface specs) idsOf (init (Sched.iface specs) (.scope m (LoadScope.init numnodes)) numnodes maxfail mr idsOf) steps = .ok st)
+    (k : String) :
+    ∃ s, st.ctl.sched = .scope m s ∧
+      (k ∈ AList.keys s.workqueue → ∀ a ∈ s.assigned, k ∉ AList.keys a.2) ∧
+      (∀ a ∈ s.assigned, ∀ b ∈ s.assigned, k ∈ AList.keys a.2 → k ∈ AList.keys b.2 → a = b) := by
+  have h0 : ScopeP m (init (Sched.iface specs) (.scope m (LoadScope.init numnodes)) numnodes maxfail mr idsOf).ctl.sched
+      (init (Sched.iface specs) (.scope m (LoadScope.init numnodes)) numnodes maxfail mr idsOf).ctl.env := by
+    refine ⟨rfl, ⟨?_, ?_⟩, LoadScope.init_di numnodes⟩
+    · intro p hp; simp [LoadScope.init] at hp
+    · intro a ha; simp [LoadScope.init] at ha
+  have hp := run_discS (Sched.iface specs) (iface_scopeP specs m) idsOf steps h0 h
+  cases hsc : st.ctl.sched with
+  | scope m' s =>
+    rw [hsc] at hp
+    obtain ⟨rfl, hh⟩ := hp
+    exact ⟨s, rfl, (hh.2.1.one_place k).1, (hh.2.1.one_place k).2⟩
   | nosched => rw [hsc] at hp; exact hp.elim
   | load s => rw [hsc] at hp; exact hp.elim
   | ws s => rw [hsc] at hp; exact hp.elim
@@ -77,5 +106,10 @@ theorem scopeRun : scopeFinal.map (fun st => st.ctl.env.outs) = some [.run 0 [0,
 
 example : LoadScope.unitsOf SplitScope.fileKeyS ["a.py::x", "b.py::y", "a.py::z"] =
     [("a.py", [("a.py::x", false), ("a.py::z", false)]), ("b.py", [("b.py::y", false)])] := by decide +kernel
+
+/-- in that execution both keys are in worker 0's assigned work (so the premises `k ∈ keys a.2` of `C06_sys_group_in_one_place` are met) -/
+theorem scopeRun_assigned : scopeFinal.map (fun st => match st.ctl.sched with
+    | .scope _ s => (s.assigned.map (fun a => (a.1, AList.keys a.2)), AList.keys s.workqueue) | _ => ([], [])) =
+    some ([(0, ["a.py", "b.py"])], []) := by decide +kernel
 
 end Xdist.Sys
